@@ -14,8 +14,7 @@ package envlab
 
 import (
 	"fmt"
-
-	"github.com/AliceO2Group/Control/core/workflow/callable"
+	"strings"
 )
 
 const (
@@ -113,10 +112,35 @@ func (o Occurrence) MomentIndex(name string) int {
 	return -1
 }
 
-// ParseExpr splits "name+w" / "name-w" / "name" with the repository's own parser.
+// ParseExpr is the lab's own reading of a trigger / await expression, written
+// from the handbook ("syntax ±index ... an expression with no index is assumed to
+// be indexed +0", docs/handbook/configuration.md) and NOT shared with the
+// repository's callable.ParseTriggerExpression, which is code under test: the
+// expression is split at its last '+' or '-', the index is a DECIMAL integer
+// with an explicit sign, leading zeros allowed ("+010" is ten, "-050" minus
+// fifty, "+08" eight, "-0" zero); no index means +0; an index that is not a
+// decimal integer gets the repository's documented fallback +0. A positive
+// index without '+' is not an index at all (it would be part of the name).
 func ParseExpr(expr string) (string, int) {
-	n, w := callable.ParseTriggerExpression(expr)
-	return n, int(w)
+	i := strings.LastIndexAny(expr, "+-")
+	if i < 0 {
+		return expr, 0
+	}
+	name, digits := expr[:i], expr[i+1:]
+	if digits == "" || len(digits) > 15 {
+		return name, 0
+	}
+	n := 0
+	for _, ch := range digits {
+		if ch < '0' || ch > '9' {
+			return name, 0
+		}
+		n = n*10 + int(ch-'0')
+	}
+	if expr[i] == '-' {
+		n = -n
+	}
+	return name, n
 }
 
 // Expr builds a trigger/await expression.
